@@ -366,6 +366,10 @@ class Gen:
                     v = rng.randint(1, max(1, min(6, rem - left)))
                     rem -= v
                     heads.append({"p": [v, den], "atom": {"f": n, "a": copy.deepcopy(hargs)}})
+                if rng.random() < 0.35:
+                    # probabilities that sum to exactly one (no 'none of the heads' outcome)
+                    tot = sum(h["p"][0] for h in heads)
+                    heads[-1]["p"][0] += den - tot
                 hv = [h["atom"] for h in heads]
                 needs_body = any(atom_vars(a) for a in hv)
                 if needs_body or rng.random() < 0.6:
